@@ -178,3 +178,20 @@ def c11_loadfile_entry_points(f):
     if b == "load_files|raises:OdxError":
         return "Reference to auxiliary file" in f.detail
     return b in ("load_files|Database.short_name", "load_directory|Database.short_name")
+
+
+@predicate("c11_text_whitespace_not_preserved")
+def c11_text_whitespace_not_preserved(f):
+    """the templates' |e filter leaves TAB / LF literal: (a) jinja's indent() then re-indents the
+    continuation lines of a multi-line element text on every write, (b) in attributes written as
+    ATTR="{{ x|e }}" (PARAM-CLASS) XML attribute value normalization turns them into blanks"""
+    ws = f.features.get("ws")
+    if f.clause == "structural" and f.features.get("mode") == "altered":
+        if ws == "reindented":
+            return True
+        return ws == "attr-normalized" and f.features.get("key") in ("Comparam.param_class",
+                                                                     "ComplexComparam.param_class")
+    if f.clause == "idempotence":
+        # the reloaded text has the inserted blanks, the second write indents it once more
+        return bool(f.features.get("with_ws")) and set(f.features["with_ws"]) <= {"reindented", "attr-normalized"}
+    return False
